@@ -167,6 +167,9 @@ func (d *Directory) AddTimeBucket(tbk *io.TimeBucketKey, f *io.TimeBucketInfo) (
 	if err = tbk.Validate(); err != nil {
 		return err
 	}
+	if err = f.Validate(); err != nil {
+		return err
+	}
 
 	catkeySplit := tbk.GetCategories()
 	datakeySplit := tbk.GetItems()
